@@ -15,6 +15,9 @@ enum Case {
     Shaped { cid: Cid, n: usize, s: usize },
     /// a long sequence (4..16 words): one pattern pair
     Long { cid: Cid, n: usize, s: usize },
+    /// sequences whose packed bits hold documented ALTERNATIVE codes (built with from_raw): every code of the
+    /// codec's decode table at every position of a short sequence
+    AltCodes { cid: Cid, n: usize },
 }
 
 fn all_bound(t: Tier) -> f64 {
@@ -49,6 +52,11 @@ fn gen(t: Tier, _seed: u64, emit: &mut dyn FnMut(Case)) {
                 emit(Case::Long { cid, n, s });
             }
         }
+        if !bsv::spec::spec(cid).syms.iter().all(|s| s.alts.is_empty()) {
+            for n in [1usize, 2, 3, spw, spw + 1] {
+                emit(Case::AltCodes { cid, n });
+            }
+        }
         if t.thorough() {
             for n in [3 * spw - 1, 3 * spw, 3 * spw + 1, 4 * spw + 1] {
                 for s in 0..noff(bits) {
@@ -61,7 +69,7 @@ fn gen(t: Tier, _seed: u64, emit: &mut dyn FnMut(Case)) {
 
 fn run(c: &Case, out: &mut Out) {
     match c {
-        Case::All { cid, .. } | Case::Shaped { cid, .. } | Case::Long { cid, .. } => dispatch!(*cid, run_g(c, out)),
+        Case::All { cid, .. } | Case::Shaped { cid, .. } | Case::Long { cid, .. } | Case::AltCodes { cid, .. } => dispatch!(*cid, run_g(c, out)),
     }
 }
 
@@ -82,6 +90,19 @@ fn run_g<A: Sx>(c: &Case, out: &mut Out) {
                 let s = (rest.iter().map(|&x| x as usize).sum::<usize>() + *first as usize) % noff(A::BITS as usize);
                 one::<A>(&content, s, (s * 7 + 1) % noff(A::BITS as usize), out);
             });
+        }
+        Case::AltCodes { n, .. } => {
+            // every decodable code (canonical or alternative) at every position
+            let decodable: Vec<u8> = (0..=255u8).filter(|c| (*c as usize) < (1usize << A::BITS) && A::try_from_bits(*c).is_some()).collect();
+            let base: Vec<u8> = (0..*n).map(|i| decodable[(i * 5 + 1) % decodable.len()]).collect();
+            let mut cs = base.clone();
+            for pos in 0..*n {
+                for &c in &decodable {
+                    cs[pos] = c;
+                    alt_one::<A>(&cs, out);
+                }
+                cs[pos] = base[pos];
+            }
         }
         Case::Long { n, s, .. } => {
             let nof = noff(A::BITS as usize);
@@ -105,6 +126,40 @@ fn run_g<A: Sx>(c: &Case, out: &mut Out) {
                 }
             }
         }
+    }
+}
+
+/// A sequence given by raw codes (possibly alternative ones), built with from_raw: reverse keeps each
+/// symbol, complement gives the complement of the symbol each code decodes to.
+fn alt_one<A: Sx>(codes_in: &[u8], out: &mut Out) {
+    let cn = A::CID.name();
+    out.units += 1;
+    let words: Vec<usize> = bsv::model::pack_words(codes_in, A::BITS as usize).iter().map(|w| *w as usize).collect();
+    let Some(seq) = Seq::<A>::from_raw(codes_in.len(), &words) else { return };
+    let syms_in: Vec<A> = codes_in.iter().map(|c| A::try_from_bits(*c).unwrap()).collect();
+    out.stage = "operations on a sequence holding alternative codes";
+    let rev: Vec<A> = syms_in.iter().rev().copied().collect();
+    let r = out.catch(|| read(&seq_to_rev(&seq)));
+    out.check(r.as_ref().ok() == Some(&rev), || (format!("{cn}/alt-codes/to_rev-wrong"), format!("to_rev of codes {codes_in:?} ({}) = {:?}", show(&syms_in), r.as_ref().map(|v| show(v)))));
+    if A::HAS_COMP {
+        let cm: Vec<A> = syms_in.iter().map(|a| a.comp1().unwrap()).collect();
+        let rc: Vec<A> = cm.iter().rev().copied().collect();
+        let r = out.catch(|| read(&A::seq_to_comp(&seq).unwrap()));
+        out.check(r.as_ref().ok() == Some(&cm), || (format!("{cn}/alt-codes/to_comp-wrong"), format!("to_comp of codes {codes_in:?} ({}) = {:?}, want {}", show(&syms_in), r.as_ref().map(|v| show(v)), show(&cm))));
+        let r = out.catch(|| read(&A::slice_to_revcomp(&seq).unwrap()));
+        out.check(r.as_ref().ok() == Some(&rc), || (format!("{cn}/alt-codes/to_revcomp-wrong"), format!("to_revcomp of codes {codes_in:?} = {:?}, want {}", r.as_ref().map(|v| show(v)), show(&rc))));
+        let r = out.catch(|| {
+            let mut c = seq.clone();
+            A::seq_comp(&mut c);
+            A::seq_comp(&mut c);
+            read(&c)
+        });
+        out.check(r.as_ref().ok() == Some(&syms_in), || (format!("{cn}/alt-codes/comp-twice-not-identity"), format!("comp twice of codes {codes_in:?} = {:?}", r.as_ref().map(|v| show(v)))));
+    }
+    if A::HAS_MASK {
+        let mm: Vec<A> = syms_in.iter().map(|a| a.mask1().unwrap()).collect();
+        let r = out.catch(|| read(&A::seq_to_mask(&seq).unwrap()));
+        out.check(r.as_ref().ok() == Some(&mm), || (format!("{cn}/alt-codes/to_mask-wrong"), format!("to_mask of codes {codes_in:?} = {:?}, want {}", r.as_ref().map(|v| show(v)), show(&mm))));
     }
 }
 
